@@ -53,6 +53,30 @@ var DirectedScenarios = []Directed{
 		s.Settle()
 		return s.Finish()
 	}},
+	{Name: "queued-events-survive-another-parents-response", Prop: "C03", Run: func(seed uint64) *HistResult {
+		// x is held directly and waits for a slow reference added by an event,
+		// with further events queued behind it. A response for another parent of
+		// x must not release those events ahead of the waiting one.
+		s := NewScript(HistCfg{Seed: seed, Pct: 0})
+		w := s.World()
+		w.AddColl("t.x", []Val{P("a")})
+		w.AddModel("t.slow", map[string]Val{"v": P(1)})
+		w.AddModel("t.p", map[string]Val{"x": Ref("t.x")})
+		c := s.Connect("1.2.3")
+		s.Req(c, "subscribe.t.x", nil)
+		s.Settle()
+		w.Add("t.x", 1, Ref("t.slow"))
+		s.AnswerExcept("get.t.slow")
+		w.Custom("t.x", "custom")
+		w.Add("t.x", 0, P("b"))
+		w.Custom("t.x", "custom")
+		s.Quiesce()
+		s.Req(c, "subscribe.t.p", nil)
+		s.AnswerExcept("get.t.slow")
+		s.Answer("get.t.slow")
+		s.Settle()
+		return s.Finish()
+	}},
 	{Name: "delete-with-error-child", Prop: "C09", Run: func(seed uint64) *HistResult {
 		s := NewScript(HistCfg{Seed: seed, Pct: 0, Metrics: true, GetOutcome: [4]int{100, 0, 0, 0}})
 		w := s.World()
